@@ -314,8 +314,8 @@ func (r *arRun) arReceiveAll() bool {
 			// after every call made BY a contract, every 8th failed call of a user and every 16th other receive (the walk over the
 			// pool is the expensive part); every receive is judged again with the momentum that confirms it and at the end
 			if blk := res.Transaction.Block; types.IsEmbeddedAddress(sendBlock.Address) || ((len(blk.Data) != 8 || common.BytesToUint64(blk.Data) != 1) && r.nRecv%8 == 0) || r.nRecv%16 == 0 {
-				r.consPool(fmt.Sprintf("after the receive block %s/%d (data %s, %d descendants) that answers %s", arContractName(ca), res.Transaction.Block.Height,
-					hx(res.Transaction.Block.Data), len(res.Transaction.Block.DescendantBlocks), desc))
+				r.consPool(fmt.Sprintf("after receive block %s/%d (status data %s, %d descendants) answering %s", arContractName(ca), res.Transaction.Block.Height,
+					strings.TrimLeft(hx(res.Transaction.Block.Data), "0"), len(res.Transaction.Block.DescendantBlocks), desc))
 			}
 			r.checkReceive(sendBlock, res, before, after)
 			if r.failed {
